@@ -116,6 +116,11 @@ impl<R: Read + Seek> ReadBox<&mut R> for MetaBox {
             let header = BoxHeader::read(reader)?;
             let BoxHeader { name, size: s } = header;
 
+            if s > size {
+                return Err(Error::InvalidData(
+                    "meta box contains a box with a larger size than it",
+                ));
+            }
             if s == 0 {
                 return Err(Error::InvalidData("meta box contains a box with size 0"));
             }
@@ -150,6 +155,11 @@ impl<R: Read + Seek> ReadBox<&mut R> for MetaBox {
                     let header = BoxHeader::read(reader)?;
                     let BoxHeader { name, size: s } = header;
 
+                    if s > size {
+                        return Err(Error::InvalidData(
+                            "meta box contains a box with a larger size than it",
+                        ));
+                    }
                     if s == 0 {
                         return Err(Error::InvalidData("meta box contains a box with size 0"));
                     }
@@ -177,6 +187,11 @@ impl<R: Read + Seek> ReadBox<&mut R> for MetaBox {
                     let header = BoxHeader::read(reader)?;
                     let BoxHeader { name, size: s } = header;
 
+                    if s > size {
+                        return Err(Error::InvalidData(
+                            "meta box contains a box with a larger size than it",
+                        ));
+                    }
                     if s == 0 {
                         return Err(Error::InvalidData("meta box contains a box with size 0"));
                     }
@@ -186,7 +201,10 @@ impl<R: Read + Seek> ReadBox<&mut R> for MetaBox {
                             skip_box(reader, s)?;
                         }
                         _ => {
-                            let mut box_data = vec![0; (s - HEADER_SIZE) as usize];
+                            let data_size = s
+                                .checked_sub(HEADER_SIZE)
+                                .ok_or(Error::InvalidData("meta child box is too small"))?;
+                            let mut box_data = vec![0; data_size as usize];
                             reader.read_exact(&mut box_data)?;
 
                             data.push((name, box_data));
